@@ -21,8 +21,9 @@ for id in $ids; do
     git -C $target apply $p || { echo -e "$id\tAPPLYFAIL" >> $out; git -C /repo worktree remove --force $target; continue; }
   fi
   log=$(mktemp)
-  VERIF_REPO=$target VERIF_EVIDENCE_DIR=/tmp/seed_matrix_ev_$id VERIF_REPLAY_DIR=/tmp/seed_matrix_rp_$id GOVC_CACHE=/tmp/seed_matrix_cache_$id /verif/check $prop quick > $log 2>&1; rc=$?
+  VERIF_NO_BUILD=1 VERIF_REPO=$target VERIF_EVIDENCE_DIR=/tmp/seed_matrix_ev_$id VERIF_REPLAY_DIR=/tmp/seed_matrix_rp_$id GOVC_CACHE=/tmp/seed_matrix_cache_$id /verif/check $prop quick > $log 2>&1; rc=$?
   if [ $inrepo = 1 ]; then git -C /repo checkout -- .; else git -C /repo worktree remove --force $target; fi
+  [ $rc = 2 ] && cp $log /tmp/sm_fail_$id.log
   nc=$(grep -a '^VIOLATION' $log | grep -vc 'bounded')
   nb=$(grep -a '^VIOLATION' $log | grep -c 'bounded')
   firstc=$(grep -a '^VIOLATION' $log | grep -v bounded | head -3 | sed -E 's/.*obligation=([^ ]+).*/\1/' | tr '\n' ' ')
